@@ -249,6 +249,13 @@ theorem samReader_total (ft : Hts.Model.SamText.FloatText) (h : Hts.Model.SamTex
     exact Hts.Model.SamText.parseRecord_ne_panic ft _ _
   · exact Hts.Model.SamText.noHeaderLoop_ne_panic ft _ _
 
+/-- the line handling of `sam.Reader.Read` with its explicit `b[:len(b)-1]`, `b[len(b)-1]`: on a
+delimiter-terminated line it is C06's `stripCR`, and it never panics on what `ReadBytes` can return -/
+theorem samReaderLine_total (b : Bytes) (terminated : Bool) (h : terminated = true → b.getLast? = some 10) :
+    (readerLineIdx b terminated).isPanic = false ∧
+      ∀ line, readerLineIdx (line ++ [10]) true = ok (Hts.Model.SamText.stripCR line) :=
+  ⟨readerLineIdx_total b terminated h, readerLineIdx_terminated⟩
+
 /-! ### header text and binary header (C07's model `Hts.Model.Header`) -/
 
 /-- `Header.UnmarshalText` of ARBITRARY text on a new header never panics (field loops, `hex.Decode` of
